@@ -297,6 +297,34 @@ class DictReader:
 
         return doc
 
+    def _child_entries(self, entries, label):
+        """
+        Returns the dictionaries of a 'sections' or 'properties' entry. An empty
+        entry, e.g. a YAML 'sections:' without any items, holds no children; anything
+        that is not a list of dictionaries is reported via the error method.
+
+        :param entries: content of a 'sections' or 'properties' entry.
+        :param label: name of the entry, used in messages.
+        :returns: list of Python dictionary objects.
+        """
+        if entries is None:
+            return []
+
+        if not isinstance(entries, list):
+            self.error("Invalid '%s' entry: expected a list, found '%s'" %
+                       (label, type(entries).__name__))
+            return []
+
+        valid = []
+        for entry in entries:
+            if isinstance(entry, dict):
+                valid.append(entry)
+            else:
+                self.error("Invalid element in '%s': expected a dictionary, found '%s'" %
+                           (label, type(entry).__name__))
+
+        return valid
+
     def parse_sections(self, section_list):
         """
         Parses a list of Python dictionary objects containing odML sections to the
@@ -307,7 +335,7 @@ class DictReader:
         """
         odml_sections = []
 
-        for section in section_list:
+        for section in self._child_entries(section_list, "sections"):
             sec_attrs = {}
             children_secs = []
             sec_props = []
@@ -358,7 +386,7 @@ class DictReader:
         """
         odml_props = []
 
-        for _property in props_list:
+        for _property in self._child_entries(props_list, "properties"):
             prop_attrs = {}
 
             for i in _property:
